@@ -2,6 +2,7 @@
 //! prints one canonical result line per case.  See DESIGN.md §2.4 / Appendix B.
 mod sym;
 mod exp;
+mod reg;
 mod dispatch_probe;
 #[cfg(cfh_stable)]
 #[path = "gen_glue_stable.rs"]
@@ -37,6 +38,7 @@ fn main() {
         let res = match mode {
             "sym" => sym::run_case(&toks),
             "exp" => exp::run_exp(&toks),
+            "reg" => reg::run_line(&toks),
             "safe" => exp::run_safe_line(&toks),
             "dispatch" => exp::run_dispatch_line(&toks),
             _ => format!("error unknown-mode {}", mode),
